@@ -832,6 +832,17 @@ class _Frozen(object):
         os.getpid = self.getpid
 
 
+def _takes_three_positionals(f):
+    import inspect
+    if f is None:
+        return False
+    try:
+        ps = [p for p in inspect.signature(f).parameters.values() if p.kind in (p.POSITIONAL_ONLY, p.POSITIONAL_OR_KEYWORD)]
+    except (TypeError, ValueError):
+        return False
+    return len(ps) >= 4      # self + three
+
+
 def _draws():
     """the sources the identifier text comes from, as callables returning one value"""
     from saml2_tophat import s_utils
@@ -840,7 +851,8 @@ def _draws():
         ("rndstr-alphabet", lambda: s_utils.rndstr(32, "abcdefghijklmnop")),
         ("rndbytes", lambda: s_utils.rndbytes(32)),
         ("sid", lambda: s_utils.sid()),
-        ("IdentDB._create_id", lambda: IdentDB({})._create_id(TRANSIENT, "", "sp1")),
+    ] + ([("IdentDB._create_id", lambda: IdentDB({})._create_id(TRANSIENT, "", "sp1"))]
+         if _takes_three_positionals(getattr(IdentDB, "_create_id", None)) else []) + [     # a PRIVATE helper: looked at only while it exists in this shape
         ("IdentDB.create_id", lambda: IdentDB({}).create_id(PERSISTENT, "nq", "sp1")),
         ("transient_nameid", lambda: IdentDB({}).transient_nameid("u1", "sp1", "").text),
         ("persistent_nameid", lambda: IdentDB({}).persistent_nameid("u1", "sp1", "").text),
